@@ -1072,8 +1072,9 @@ def c10_conc(w):
 
 
 def c11_conc(w):
-    """At the final quiescent moment: ListTopicSubscriptions of each live topic = the live
-    subscriptions created on it; every existing subscription of a live topic receives."""
+    """At the quiescent moments after the concurrent part: ListTopicSubscriptions of each live topic =
+    the live subscriptions created on it (each topic listing is compared with the latest listing of
+    the project's subscriptions before it; nothing runs concurrently there)."""
     f = []
     go = [x.i for x in w.evs if x.op == "go"]
     if not go:
@@ -1087,15 +1088,17 @@ def c11_conc(w):
                 for it in sl(pg.split(" ")[1], ","):
                     fs = it.split("/")
                     existing[split_name(unhx(fs[0]), b"subscriptions")] = unhx(fs[1])
-    if existing is None:
-        return f
-    for x in after:
-        if x.op == "wtsubs" and x.ans.startswith("ok"):
+        elif x.op in ("csub", "dsub", "dtopic", "ctopic"):
+            existing = None if x.op != "ctopic" else existing     # stale until the next project listing
+        elif x.op == "wtsubs" and x.ans.startswith("ok") and existing is not None:
             topic_raw = unhx(x.args[0])
-            listed = set()
+            listed_l = []
             for pg in x.ans.split(" | "):
-                listed.update(split_name(unhx(n), b"subscriptions") for n in sl(pg.split(" ")[1], ","))
+                listed_l += [split_name(unhx(n), b"subscriptions") for n in sl(pg.split(" ")[1], ",")]
+            listed = set(listed_l)
             on_topic = set(n for n, t in existing.items() if t == topic_raw)
+            if len(listed_l) != len(listed):
+                f.append(("c11:listed-twice", "topic %r lists a subscription twice: %r" % (topic_raw, sorted(listed_l))))
             if listed - set(existing):
                 f.append(("c11:listed-not-live", "topic %r lists %r which does not exist" % (topic_raw, sorted(listed - set(existing)))))
             if on_topic - listed:
